@@ -45,6 +45,10 @@ class SchedStream(Stream):
         r2 = random.Random(rng.randrange(1 << 30) if self.feat.get("own_seed") else rng.getstate()[1][0])
         return [scen.gen_scenario(r2, self.feat) for _ in range(n)]
 
+    def search(self, rng, tier):
+        r2 = random.Random(rng.randrange(1 << 30))
+        return [scen.gen_scenario(r2, self.feat) for _ in range(2 * self.n_quick if tier == "quick" else 200)]
+
     def impl(self, cases):
         from vp.sched import driver
         home = Path(os.environ["HOME"])
